@@ -32,9 +32,14 @@ func (r Range) Len() int {
 // Index is in the iteration interface
 func (r Range) Index(i int) any { return r.b + i }
 
-// AsArray converts the range into an array.
+// AsArray converts the range into an array. It is a TypeError (which the evaluator turns back
+// into an error) for a range of more than maxRangeArrayLen items: a template reaches this
+// method as a property, (1..n).AsArray, as well as through a filter that takes an array.
 func (r Range) AsArray() []any {
 	n := r.Len()
+	if n > maxRangeArrayLen {
+		panic(typeErrorf("range too large to convert to an array (%d items)", n))
+	}
 	a := make([]any, 0, n)
 	// Count the items: "i <= r.e" never fails when r.e is the largest int.
 	for i := 0; i < n; i++ {
